@@ -73,6 +73,7 @@ type Ctx struct {
 	Known     []Finding
 	Items     []*Item
 	Functions map[string]string // function under contract -> ssa hash
+	Shapes    map[string]string // every function that was run (also the unverifiable ones) -> name-erased SSA hash
 	Assume    []string
 	Trusted   []string
 	Notes     []string
@@ -153,7 +154,7 @@ func checkCmd(args []string) {
 		os.Exit(2)
 	}
 	t0 := time.Now()
-	c := &Ctx{Prop: *prop, Tier: *tier, Seed: seed, Functions: map[string]string{}, Extra: map[string]any{}, Assume: []string{}, Notes: []string{}, Bounded: []string{}, T0: t0, WriteBase: *writeBase, Propose: *propose}
+	c := &Ctx{Prop: *prop, Tier: *tier, Seed: seed, Functions: map[string]string{}, Shapes: map[string]string{}, Extra: map[string]any{}, Assume: []string{}, Notes: []string{}, Bounded: []string{}, T0: t0, WriteBase: *writeBase, Propose: *propose}
 	c.Baseline = map[string]BaseEntry{}
 	loadJSON(filepath.Join(verifDir, "baseline", *prop+".json"), &c.Baseline)
 	var all []Finding
@@ -225,6 +226,9 @@ func (c *Ctx) addResults(results []*vc.FuncResult) {
 		if r == nil {
 			continue
 		}
+		c.mu.Lock()
+		c.Shapes[r.Fn] = r.SSAHash
+		c.mu.Unlock()
 		if r.Err != "" {
 			c.Notes = append(c.Notes, "not verifiable: "+r.Fn+": "+firstLine(r.Err))
 			continue
@@ -275,6 +279,9 @@ func finish(c *Ctx, pd *propDef) int {
 	_ = os.MkdirAll(replayDir, 0o755)
 	if c.WriteBase {
 		base := map[string]BaseEntry{}
+		for fn, h := range c.Shapes {
+			base["shape:"+fn] = BaseEntry{Status: "shape", Hash: h}
+		}
 		for _, it := range c.Items {
 			st := it.Status
 			if st == "discharged" && it.Secs > 2.5 {
@@ -384,6 +391,17 @@ func finish(c *Ctx, pd *propDef) int {
 	reportedRoot := map[string]bool{}
 	for _, name := range vanished {
 		root := name[:strings.Index(name, "/")]
+		if uv := unverifiable[root]; uv != nil && strings.Contains(uv.Model, "unknown identifier") {
+			// the contract names a local variable that no longer exists (a rename): the contract text is stale,
+			// which says nothing about the property; reported loudly, never as a violation
+			if !reportedRoot[root] {
+				reportedRoot[root] = true
+				fmt.Printf("STALE-CONTRACT: property=%s %s: %s (the clauses of this function are undecided until the contract is updated)\n", c.Prop, root, firstLine(uv.Model))
+				c.Notes = append(c.Notes, "stale contract: "+root+": "+firstLine(uv.Model))
+			}
+			undecided = append(undecided, name+" (stale contract)")
+			continue
+		}
 		if uv := unverifiable[root]; uv != nil {
 			if !reportedRoot[root] {
 				reportedRoot[root] = true
@@ -415,6 +433,7 @@ func finish(c *Ctx, pd *propDef) int {
 			viols = append(viols, viol{it, oc, "listed finding, but the failing input class changed from `" + kf.InputClass + "`"})
 		}
 	}
+	staleRoot := map[string]bool{}
 	seenNR := map[string]bool{}
 	for _, it := range needReplay {
 		if seenNR[it.Name] {
@@ -425,9 +444,23 @@ func finish(c *Ctx, pd *propDef) int {
 		if outcomes != nil {
 			oc = outcomes[it.Name]
 		}
+		sameCode := false
+		if be, ok := c.Baseline["shape:"+it.Root]; ok && it.Root != "" && be.Hash == c.Shapes[it.Root] {
+			sameCode = true
+		}
 		switch {
 		case oc != nil && oc.Ran && oc.Failed:
 			viols = append(viols, viol{it, oc, "counterexample replayed on the real code"})
+		case regressed[it.Name] != "" && sameCode:
+			// the function (and what it calls) compiles to the same code as on the pinned tree with the names of
+			// locals erased: only names, comments or layout changed, so a lost proof can only mean that the contract
+			// text names something that was renamed
+			if !staleRoot[it.Root] {
+				staleRoot[it.Root] = true
+				fmt.Printf("STALE-CONTRACT: property=%s %s: same code as on the pinned tree up to the names of locals; its contract needs the new names (obligations undecided, no violation)\n", c.Prop, it.Root)
+				c.Notes = append(c.Notes, "stale contract (rename only): "+it.Root)
+			}
+			undecided = append(undecided, it.Name+" (stale contract)")
 		case regressed[it.Name] != "":
 			// no failing input: before reporting a lost proof, retry with a long timeout on every back end
 			if it.Script != "" {
